@@ -117,6 +117,122 @@ theorem double_completion_witness :
     ¬ Disciplined (run 3 true [(0, true), (1, false), (1, true), (2, true)]) :=
   ⟨by decide, fun h => absurd ((disciplinedB_iff _).mpr h) (by decide)⟩
 
+/-! ## `ModList.Start` / `ModList.Stop`: the wrapper around each module's callback (D21)
+
+`wrun n fwd acts` is the log of one `ModList.Start` / `ModList.Stop` driven by a chronological
+sequence of *module actions* — `report w b` (module `w` invokes the callback it was handed) and
+`panic w` (its Start/Stop panics and is recovered).  The wrapper turns them into the `next` calls
+`wcalls acts` that reach `Filter`, so `wrun n fwd acts = run n fwd (wcalls acts)` and every theorem
+above applies once the discipline is carried over (`modlist_phase_disciplined`). -/
+
+/-- The discipline at the level of the modules' actions (each action by an entered module, at most
+one report and at most one panic per module) gives the discipline of the `next` calls — a report
+after the module's own panic and a panic after its own report do not reach `Filter`. -/
+theorem modlist_phase_disciplined (n : Nat) (fwd : Bool) (acts : List MAct) (hd : MDisciplined n fwd acts) :
+    Disciplined (wrun n fwd acts) ∧ canonB (ord n fwd) (wrun n fwd acts) = true ∧
+      (finishes (wrun n fwd acts)).length ≤ 1 := by
+  have h := wrapped_disciplined n fwd acts hd
+  exact ⟨h, disciplined_log_canonical n fwd _ h, finish_at_most_once n fwd _ h⟩
+
+/-- **a module that panics before reporting has failed** (the D21 guarantee): whatever happened
+before (`p`) and whatever the modules do afterwards (`q`: late reports of the panicked module,
+panics of modules that have reported, …), the phase log is the log up to the panic followed by
+exactly the wrapper's `next(false)` and `finish(false)`: the completion callback is invoked, with
+`false`, exactly once; no later module is entered; nothing that arrives later has any effect. -/
+theorem panic_before_report_fails_phase (n : Nat) (fwd : Bool) (acts : List MAct) (hd : MDisciplined n fwd acts)
+    (p : List MAct) (w : Nat) (q : List MAct) (heq : acts = p ++ MAct.panic w :: q)
+    (hnr : ∀ b, MAct.report w b ∉ p) :
+    wrun n fwd acts = wrun n fwd p ++ [Ev.call w false, Ev.finish false] ∧
+      finishes (wrun n fwd acts) = finishes (wrun n fwd p) ++ [false] ∧
+      enters (wrun n fwd acts) = enters (wrun n fwd p) := by
+  have hdis := wrapped_disciplined n fwd acts hd
+  have hnrep : w ∉ (wstate {} p).reported := by
+    intro h
+    rcases wstate_reported_src p {} w h with h0 | ⟨b, hb⟩
+    · simp at h0
+    · exact hnr b hb
+  have hcalls : wcalls acts = wcalls p ++ (w, false) :: wcallsFrom ((wstate {} p).step (.panic w)).1 q := by
+    subst heq
+    simp [wcalls, wcallsFrom_append, wcallsFrom, Wrap.step, hnrep]
+  have hlog : ∃ rest, wrun n fwd acts = wrun n fwd p ++ Ev.call w false :: Ev.finish false :: rest := by
+    simp only [wrun, run, hcalls, runFrom_append, runFrom, ML.next, Bool.not_false, ↓reduceIte]
+    obtain ⟨rest, hr⟩ := runFrom_prefix (wcallsFrom ((wstate {} p).step (.panic w)).1 q)
+      (runFrom (filter n fwd).1 (filter n fwd).2 (wcalls p)).1
+      ((runFrom (filter n fwd).1 (filter n fwd).2 (wcalls p)).2 ++ [Ev.call w false, Ev.finish false])
+    exact ⟨rest, by rw [hr]; simp⟩
+  obtain ⟨rest, hr⟩ := hlog
+  have hq := first_failure_stops n fwd (wcalls acts) hdis (wrun n fwd p) w (Ev.finish false :: rest) hr
+  simp only [List.cons.injEq, true_and] at hq
+  subst hq
+  rw [hr]
+  simp [finishes, enters]
+
+/-- non-vacuity, and what it looks like: module 1 of three stashes its callback and panics; module 0
+panics after it reported (only logged); module 1 reports `true` much later (dropped) -/
+example : MDisciplined 3 true [.report 0 true, .panic 1, .panic 0, .report 1 true] ∧
+    wrun 3 true [.report 0 true, .panic 1, .panic 0, .report 1 true] =
+      [.enter 0, .call 0 true, .enter 1, .call 1 false, .finish false] := by
+  refine ⟨?_, by decide⟩
+  intro p a q heq
+  have hlen : p.length ≤ 3 := by
+    have := congrArg List.length heq
+    simp at this; omega
+  match p, hlen with
+  | [], _ => simp at heq; obtain ⟨rfl, _⟩ := heq; exact ⟨by decide, by simp, by simp⟩
+  | [a0], _ => simp at heq; obtain ⟨rfl, rfl, _⟩ := heq; exact ⟨by decide, by simp, by simp⟩
+  | [a0, a1], _ => simp at heq; obtain ⟨rfl, rfl, rfl, _⟩ := heq; exact ⟨by decide, by simp, by simp⟩
+  | [a0, a1, a2], _ => simp at heq; obtain ⟨rfl, rfl, rfl, rfl, _⟩ := heq; exact ⟨by decide, by simp, by simp⟩
+
+/-- **exactly once, panics included**: if every entered module reports at most once and every
+entered module either reports or panics, `finish` is invoked exactly once, last, and with `true`
+iff all `n` modules were entered and every `next` call that reached `Filter` was a success (in
+particular: no module panicked before reporting). -/
+theorem modlist_phase_completes (n : Nat) (fwd : Bool) (acts : List MAct)
+    (hd : MDisciplined n fwd acts) (hc : MComplete n fwd acts) :
+    ∃ b, finishes (wrun n fwd acts) = [b] ∧ (wrun n fwd acts).getLast? = some (Ev.finish b) ∧
+      (b = true ↔ (enters (wrun n fwd acts) = ord n fwd ∧ ∀ w b', Ev.call w b' ∈ wrun n fwd acts → b' = true)) :=
+  finish_exactly_once n fwd (wcalls acts) (wrapped_disciplined n fwd acts hd) (wrapped_complete n fwd acts hc)
+
+/-- a report that arrives after the module's own panic-before-report never reaches `Filter`
+(unconditionally: whatever else happened in between) -/
+theorem late_report_ignored (p q : List MAct) (w : Nat) (b : Bool) (hnr : ∀ b', MAct.report w b' ∉ p) :
+    wcalls (p ++ MAct.panic w :: q ++ [MAct.report w b]) = wcalls (p ++ MAct.panic w :: q) := by
+  have hnrep : w ∉ (wstate {} p).reported := by
+    intro h
+    rcases wstate_reported_src p {} w h with h0 | ⟨b', hb⟩
+    · simp at h0
+    · exact hnr b' hb
+  have hdead : w ∈ (wstate {} (p ++ MAct.panic w :: q)).dead := by
+    rw [wstate_append]
+    simp only [wstate]
+    apply wstate_dead_mono
+    simp [Wrap.step, hnrep]
+  have := wcalls_snoc (p ++ MAct.panic w :: q) (.report w b)
+  simp only [List.append_assoc, List.cons_append] at this ⊢
+  rw [this]
+  simp [Wrap.step, hdead]
+
+/-- **D21** (what `ModList.Start/Stop` did before /repo b70026f): a module that panicked before
+calling `next` was recovered and nothing else happened — every entered module has acted, yet the
+phase never reports (the App stays in Starting); and a report of that module arriving later went
+on with the phase.  With the wrapper the same histories end in exactly `finish(false)`. -/
+theorem d21_witness :
+    wrunOld 3 true [.report 0 true, .panic 1] = [.enter 0, .call 0 true, .enter 1] ∧
+    wrunOld 3 true [.report 0 true, .panic 1, .report 1 true] =
+      [.enter 0, .call 0 true, .enter 1, .call 1 true, .enter 2] ∧
+    wrun 3 true [.report 0 true, .panic 1] = [.enter 0, .call 0 true, .enter 1, .call 1 false, .finish false] ∧
+    wrun 3 true [.report 0 true, .panic 1, .report 1 true] =
+      [.enter 0, .call 0 true, .enter 1, .call 1 false, .finish false] ∧
+    MComplete 3 true [.report 0 true, .panic 1] := by
+  refine ⟨by decide, by decide, by decide, by decide, ?_⟩
+  intro m hm
+  have h : wrun 3 true [.report 0 true, .panic 1] = [.enter 0, .call 0 true, .enter 1, .call 1 false, .finish false] := by decide
+  rw [h] at hm
+  simp at hm
+  rcases hm with rfl | rfl
+  · exact .inl ⟨true, by simp⟩
+  · exact .inr (by simp)
+
 /-! ## a module list that grows while the phase runs (`AddModule` between completions) -/
 
 /-- `doNow` reads `len(m.mods)` live: for any interleaving of completions and `AddModule` calls
@@ -171,6 +287,13 @@ example : (grun 2 true [.call 0 true, .add, .call 1 true, .call 2 true]).2 =
 example : Disciplined (grun 2 true [.call 0 true, .add, .call 1 true, .call 2 true]).2 :=
   (disciplinedB_iff _).mp (by decide)
 
+/-- a module registered after start-up has succeeded is visited by the next Stop — first, since Stop
+starts at the live `len-1` — although it was never started (the App-level theorems are for a fixed
+list; `App.AddModule` is not guarded by the state) -/
+theorem stop_visits_unstarted_module_witness :
+    ((App.run 1 [.start, .call true 0 true]).1.addModule.step .stop).2 =
+      [.begin false, .ev false (.enter 1)] := by decide
+
 /-! ## baseapp.App: the state guard -/
 
 /-- **state guard**: `App.Start` does nothing unless the state is Prepared; `App.Stop`
@@ -183,8 +306,14 @@ theorem app_state_guard (a : App) :
 sets the state *before* it invokes the caller's `finish` (a step's `finish` is its last event and
 the step's resulting state is the state the callback observes — the driver runs scripted callbacks
 exactly there, and the differential run compares this with the real `App`).  So whenever a
-start-phase step reports success, the state is Normal and a `Stop` issued at that point — from
-inside the callback, or by a goroutine it woke up — is accepted: it begins the stop phase. -/
+start-phase step reports success, the state is Normal and a `Stop` issued at that point is accepted:
+it begins the stop phase.  "At that point" is: by the callback itself when the reporting completion
+arrived after `ModList.Filter` had returned (`op = .call ..` made outside Filter), or by anybody once
+the step is over.  `Filter` holds the list's non-reentrant lock while its synchronous chain —
+including `finish` — runs: a `Stop` (or `AddModule`) issued *by the callback itself* while still
+inside that chain (`op = .start` with an all-synchronous list, or a completion nested in it) blocks on
+that lock forever in the Go code; the lock is not part of this model (reported as a defect of /repo,
+not generated by the harness). -/
 theorem start_callback_sees_normal (a : App) (op : AOp)
     (h : AEv.ev true (Ev.finish true) ∈ (a.step op).2) :
     (a.step op).1.st = .normal ∧ AEv.begin false ∈ ((a.step op).1.step .stop).2 := by
@@ -587,6 +716,123 @@ theorem app_stop_phase_is_filter (n : Nat) (ops : List AOp) (h1 : begins false (
   · exact .inr ⟨cs, h2, by simp [run, h3]⟩
   · omega
 
+/-- invariant behind `app_stop_once`: every begun stop phase has used up one report of the start phase -/
+private theorem stop_begins_le_start_reports (n : Nat) (ops : List AOp) :
+    begins false (App.run n ops).2 ≤ (finishes (phaseEvs true (App.run n ops).2)).length := by
+  have h := App.run_induction n
+    (fun a tr _ => begins false tr ≤ (finishes (phaseEvs true tr)).length ∧
+      (a.st = .normal → begins false tr < (finishes (phaseEvs true tr)).length))
+    (by simp [App.init, begins, phaseEvs, finishes])
+    (by
+      intro a tr done op ⟨ih1, ih2⟩
+      have hmem : ∀ es : List Ev, Ev.finish true ∈ es → 1 ≤ (finishes es).length := by
+        intro es hm
+        have : true ∈ finishes es := by
+          induction es with
+          | nil => simp at hm
+          | cons e es ih =>
+            cases e with
+            | finish b =>
+              simp only [List.mem_cons, Ev.finish.injEq] at hm
+              rcases hm with h | h
+              · simp [finishes, ← h]
+              · simp [finishes, ih h]
+            | enter i => simp only [List.mem_cons, reduceCtorEq, false_or] at hm; simpa [finishes] using ih hm
+            | call w b => simp only [List.mem_cons, reduceCtorEq, false_or] at hm; simpa [finishes] using ih hm
+            | oob => simp only [List.mem_cons, reduceCtorEq, false_or] at hm; simpa [finishes] using ih hm
+        exact List.length_pos_of_mem this
+      cases op with
+      | start =>
+        by_cases hp : a.st = .prepared
+        · simp only [App.step, hp, ne_eq, not_true_eq_false, ↓reduceIte]
+          have hb : begins false (tr ++ AEv.begin true :: (filter a.n true).2.map (AEv.ev true)) = begins false tr := by
+            rw [begins_append]
+            have : begins false (AEv.begin true :: (filter a.n true).2.map (AEv.ev true)) =
+                begins false ((filter a.n true).2.map (AEv.ev true)) := by simp [begins]
+            rw [this, begins_evs]; rfl
+          have hf : finishes (phaseEvs true (tr ++ AEv.begin true :: (filter a.n true).2.map (AEv.ev true))) =
+              finishes (phaseEvs true tr) ++ finishes (filter a.n true).2 := by
+            rw [phaseEvs_append]; simp [phaseEvs, phaseEvs_evs_same]
+          rw [hb, hf, List.length_append]
+          rcases onEvents_cases true (filter a.n true).2 { a with st := .starting, startML := some (filter a.n true).1 } with ⟨_, h'⟩ | ⟨hm, h'⟩
+          · rw [h']; exact ⟨by omega, by simp⟩
+          · rw [h']; have := hmem _ hm; exact ⟨by omega, fun _ => by omega⟩
+        · simpa [App.step, hp] using And.intro ih1 ih2
+      | stop =>
+        by_cases hn : a.st = .normal
+        · simp only [App.step, hn, ne_eq, not_true_eq_false, ↓reduceIte]
+          have hb : begins false (tr ++ AEv.begin false :: (filter a.n false).2.map (AEv.ev false)) = begins false tr + 1 := by
+            rw [begins_append]
+            have : begins false (AEv.begin false :: (filter a.n false).2.map (AEv.ev false)) =
+                1 + begins false ((filter a.n false).2.map (AEv.ev false)) := by simp [begins, Nat.add_comm]
+            rw [this, begins_evs]
+          have hf : finishes (phaseEvs true (tr ++ AEv.begin false :: (filter a.n false).2.map (AEv.ev false))) =
+              finishes (phaseEvs true tr) := by
+            rw [phaseEvs_append]; simp [phaseEvs, phaseEvs_evs_other]
+          rw [hb, hf]
+          have := ih2 hn
+          rcases onEvents_cases false (filter a.n false).2 { a with st := .stoping, stopML := some (filter a.n false).1 } with ⟨_, h'⟩ | ⟨_, h'⟩ <;>
+          · rw [h']; exact ⟨by omega, by simp⟩
+        · simpa [App.step, hn] using And.intro ih1 ih2
+      | call ph w b =>
+        simp only [App.step]
+        cases hml : (if ph = true then a.startML else a.stopML) with
+        | none => simpa using And.intro ih1 ih2
+        | some ml =>
+          simp only
+          have hb : begins false (tr ++ AEv.ev ph (Ev.call w b) :: (ml.next b).2.map (AEv.ev ph)) = begins false tr := by
+            rw [begins_append]
+            have : begins false (AEv.ev ph (Ev.call w b) :: (ml.next b).2.map (AEv.ev ph)) =
+                begins false ((ml.next b).2.map (AEv.ev ph)) := by simp [begins]
+            rw [this, begins_evs]; rfl
+          rw [hb]
+          generalize hA : (if ph = true then { a with startML := some (ml.next b).1 } else { a with stopML := some (ml.next b).1 }) = a'
+          have hst : a'.st = a.st := by subst hA; cases ph <;> simp
+          cases ph with
+          | true =>
+            have hf : finishes (phaseEvs true (tr ++ AEv.ev true (Ev.call w b) :: (ml.next b).2.map (AEv.ev true))) =
+                finishes (phaseEvs true tr) ++ finishes (ml.next b).2 := by
+              rw [phaseEvs_append]; simp [phaseEvs, phaseEvs_evs_same, finishes]
+            rw [hf, List.length_append]
+            rcases onEvents_cases true (ml.next b).2 a' with ⟨_, h'⟩ | ⟨hm, h'⟩
+            · rw [h', hst]; exact ⟨by omega, fun hn => by have := ih2 hn; omega⟩
+            · rw [h']; have := hmem _ hm; exact ⟨by omega, fun _ => by omega⟩
+          | false =>
+            have hf : finishes (phaseEvs true (tr ++ AEv.ev false (Ev.call w b) :: (ml.next b).2.map (AEv.ev false))) =
+                finishes (phaseEvs true tr) := by
+              rw [phaseEvs_append]; simp [phaseEvs, phaseEvs_evs_other]
+            rw [hf]
+            rcases onEvents_cases false (ml.next b).2 a' with ⟨_, h'⟩ | ⟨_, h'⟩
+            · rw [h', hst]; exact ⟨ih1, ih2⟩
+            · rw [h']; exact ⟨ih1, by simp⟩)
+    ops
+  exact h.1
+
+/-- **the stop phase is begun at most once** when the start phase's modules keep the discipline (the
+side condition of `app_stop_phase_is_filter`, discharged): `App.Stop` is accepted only in state
+Normal, and only a report of the start phase puts the application (back) into Normal — a
+disciplined start phase reports at most once. -/
+theorem app_stop_once (n : Nat) (ops : List AOp) (hd : Disciplined (phaseEvs true (App.run n ops).2)) :
+    begins false (App.run n ops).2 ≤ 1 := by
+  have h := stop_begins_le_start_reports n ops
+  rcases app_start_phase_is_filter n ops with h0 | ⟨cs, _, hrun⟩
+  · rw [h0] at h; simp only [finishes, List.length_nil] at h; omega
+  · rw [hrun] at h hd
+    have := finish_at_most_once n true cs hd
+    omega
+
+/-- `App.Stop`'s phase is one `Filter` run in reverse order whenever the start phase's modules kept
+the discipline (no side condition left). -/
+theorem app_stop_phase_is_filter_disciplined (n : Nat) (ops : List AOp)
+    (hd : Disciplined (phaseEvs true (App.run n ops).2)) :
+    phaseEvs false (App.run n ops).2 = [] ∨
+    ∃ cs, cs.Sublist (opCalls false ops) ∧ phaseEvs false (App.run n ops).2 = run n false cs :=
+  app_stop_phase_is_filter n ops (app_stop_once n ops hd)
+
+/-- the discipline is needed: a second success report of the start phase re-opens the guard and a
+second stop phase is begun -/
+example : begins false (App.run 1 [.start, .call true 0 true, .stop, .call true 0 true, .stop]).2 = 2 := by decide
+
 /-! non-vacuity for the App theorems: a complete life cycle (both phases begun exactly once, final
 state Stopped), and a Stop that is refused because start-up failed -/
 example :
@@ -597,6 +843,124 @@ example :
   decide
 example : (App.run 2 [.start, .call true 0 false, .stop]).1.st = .starting ∧
     begins false (App.run 2 [.start, .call true 0 false, .stop]).2 = 0 := by decide
+
+/-! ## node/app.App: StartNode / StopNode (baseapp.LaunchApp in between) -/
+
+/-- **what StartNode does when it cannot start**: without a nodes table, with an unknown node id, or
+when `LaunchApp` finds neither the named launch mode nor a default one, nothing happens at all — no
+module is registered or entered and the caller's callback is never invoked (the three silent
+`return`s of node/app/app.go and baseapp/launch.go; the statement's "exactly once" is about accepted
+calls). -/
+theorem node_refusals_silent (s : Node) (known : Bool) (adds : Nat)
+    (h : s.env.nodesLoaded = false ∨ known = false ∨ s.env.resolves = false) :
+    s.step (.startNode known adds) = (s, []) := by
+  rcases h with h | h | h <;> simp [Node.step, h]
+
+/-- **the node's callbacks are the App's reports**: for every history of node operations, the caller's
+start callback is invoked exactly when the embedded App's start phase reports, with the same value, and
+the stop callback likewise (nothing is added, dropped or changed by StartNode / StopNode). -/
+theorem node_callbacks_are_app_reports (e : NodeEnv) (ops : List NOp) :
+    fins (Node.run e ops).2 = finishes (phaseEvs true (appEvs (Node.run e ops).2)) ∧
+    finXs (Node.run e ops).2 = finishes (phaseEvs false (appEvs (Node.run e ops).2)) := by
+  have gen : ∀ (ops : List NOp) (s : Node) (tr : List NEv),
+      (fins tr = finishes (phaseEvs true (appEvs tr)) ∧ finXs tr = finishes (phaseEvs false (appEvs tr))) →
+      fins (Node.runFrom s tr ops).2 = finishes (phaseEvs true (appEvs (Node.runFrom s tr ops).2)) ∧
+      finXs (Node.runFrom s tr ops).2 = finishes (phaseEvs false (appEvs (Node.runFrom s tr ops).2)) := by
+    intro ops
+    induction ops with
+    | nil => intro s tr h; exact h
+    | cons op ops ih =>
+      intro s tr ⟨h1, h2⟩
+      apply ih
+      have hstep : fins (s.step op).2 = finishes (phaseEvs true (appEvs (s.step op).2)) ∧
+          finXs (s.step op).2 = finishes (phaseEvs false (appEvs (s.step op).2)) := by
+        cases op with
+        | startNode known adds =>
+          simp only [Node.step]
+          split
+          · exact ⟨rfl, rfl⟩
+          · simp [fins, finXs, appEvs, fins_nodeLog, finXs_nodeLog, appEvs_nodeLog]
+        | stopNode => simp [Node.step, fins_nodeLog, finXs_nodeLog, appEvs_nodeLog]
+        | call ph w b => simp [Node.step, fins_nodeLog, finXs_nodeLog, appEvs_nodeLog]
+      simp only [fins_append, finXs_append, appEvs_append, phaseEvs_append, finishes_append, h1, h2, hstep.1, hstep.2, and_self]
+  exact gen ops (Node.init e) [] ⟨rfl, rfl⟩
+
+/-- **services are started inside the completion closure, whatever the outcome**: each report
+`finish(b)` of the App's start phase is followed directly by `StartServices` (the configured
+services in order, unconfigured ones skipped), `StartNodeCtrl` and then the caller's `fin(b)` — also
+for `b = false` (a node whose modules failed to start still starts its services). -/
+theorem node_services_then_fin (svc : List Bool) (p q : List AEv) (b : Bool) :
+    nodeLog svc (p ++ AEv.ev true (Ev.finish b) :: q) =
+      nodeLog svc p ++ NEv.app (AEv.ev true (Ev.finish b)) :: (startedServices svc ++ NEv.nodeCtrl :: NEv.fin b :: nodeLog svc q) := by
+  rw [nodeLog_append]; rfl
+
+/-- **an accepted StartNode is `App.Start` over the modules the launch mode registers**: after it,
+for every further history (Stop, completions, refused StartNodes, StartNodes whose launch mode
+registers nothing more — anything but a second StartNode that registers modules again), what the
+embedded App does is `App.run` over that fixed list, so every App / ModList theorem above applies to
+the node. -/
+theorem node_start_is_app_start (e : NodeEnv) (n : Nat) (ops : List NOp)
+    (hok : e.nodesLoaded = true ∧ e.resolves = true) (hno : ∀ op ∈ ops, ∀ k, op = NOp.startNode true k → k = 0) :
+    appEvs (Node.run e (.startNode true n :: ops)).2 = (App.run n (.start :: ops.map NOp.toAOp)).2 := by
+  have hstep : (Node.init e).step (.startNode true n) =
+      ({ env := e, app := ((App.init n).step .start).1 }, NEv.prepare :: nodeLog e.svc ((App.init n).step .start).2) := by
+    have := addModules_init n 0
+    simp only [Nat.zero_add] at this
+    simp [Node.step, Node.init, hok.1, hok.2, this]
+  simp only [Node.run, Node.runFrom, App.run, App.runFrom, List.map_cons, NOp.toAOp, hstep, List.nil_append]
+  have hst : ((App.init n).step .start).1.st ≠ .prepared := start_step_not_prepared _ rfl
+  have := (node_runFrom_app ops { env := e, app := ((App.init n).step .start).1 }
+    (NEv.prepare :: nodeLog e.svc ((App.init n).step .start).2) hst hno).2
+  simpa [appEvs, appEvs_nodeLog] using this
+
+/-- **StartNode reports exactly once**: an accepted StartNode over modules that keep the discipline
+and all complete invokes the caller's callback exactly once (after starting the services), with the
+outcome of the module list. -/
+theorem node_start_reports_exactly_once (e : NodeEnv) (n : Nat) (ops : List NOp)
+    (hok : e.nodesLoaded = true ∧ e.resolves = true) (hno : ∀ op ∈ ops, ∀ k, op = NOp.startNode true k → k = 0)
+    (hd : Disciplined (phaseEvs true (App.run n (.start :: ops.map NOp.toAOp)).2))
+    (hc : Complete (phaseEvs true (App.run n (.start :: ops.map NOp.toAOp)).2)) :
+    ∃ b, fins (Node.run e (.startNode true n :: ops)).2 = [b] ∧
+      finishes (phaseEvs true (App.run n (.start :: ops.map NOp.toAOp)).2) = [b] := by
+  rw [(node_callbacks_are_app_reports e _).1, node_start_is_app_start e n ops hok hno]
+  rcases app_start_phase_is_filter n (.start :: ops.map NOp.toAOp) with h0 | ⟨cs, _, hrun⟩
+  · -- impossible: the accepted Start has produced events
+    exfalso
+    have hne : (filter n true).2 ≠ [] := by
+      simp only [filter, ML.doNow]
+      (repeat' split) <;> simp
+    obtain ⟨rest, hr⟩ := App.runFrom_prefix (ops.map NOp.toAOp) ((App.init n).step .start).1
+      ([] ++ ((App.init n).step .start).2)
+    simp only [App.run, App.runFrom] at h0
+    rw [hr] at h0
+    simp [App.step, App.init, phaseEvs_append, phaseEvs, phaseEvs_evs_same, hne] at h0
+  · rw [hrun] at hd hc ⊢
+    obtain ⟨b, hb, _⟩ := finish_exactly_once n true cs hd hc
+    exact ⟨b, hb, hb⟩
+
+/-- non-vacuity: a node whose launch mode registers two modules, one service configured, one not -/
+example :
+    let e : NodeEnv := { svc := [true, false] }
+    (Node.run e [.startNode false 2, .startNode true 2, .call true 0 true, .call true 1 true, .stopNode, .startNode true 0,
+                 .call false 1 true, .call false 0 true]).2 =
+      [.prepare, .app (.begin true), .app (.ev true (.enter 0)),
+       .app (.ev true (.call 0 true)), .app (.ev true (.enter 1)),
+       .app (.ev true (.call 1 true)), .app (.ev true (.finish true)), .service 0, .nodeCtrl, .fin true,
+       .app (.begin false), .app (.ev false (.enter 1)), .prepare,
+       .app (.ev false (.call 1 true)), .app (.ev false (.enter 0)),
+       .app (.ev false (.call 0 true)), .app (.ev false (.finish true)), .finX true] := by decide
+
+/-- **a second accepted StartNode registers the launch mode's modules again** (`PrepareModules` runs
+before `App.Start`'s guard, which then refuses): nothing is started, but the list has grown, and the
+next Stop visits modules that were never started — why "StartNode is called once per node" is a
+precondition of the property at node level. -/
+theorem second_startnode_witness :
+    let e : NodeEnv := {}
+    (Node.run e [.startNode true 1, .call true 0 true, .startNode true 1, .stopNode]).2 =
+      [.prepare, .app (.begin true), .app (.ev true (.enter 0)), .app (.ev true (.call 0 true)),
+       .app (.ev true (.finish true)), .nodeCtrl, .fin true,
+       .prepare,
+       .app (.begin false), .app (.ev false (.enter 1))] := by decide
 
 /-! ## the modules shipped with the framework (translated from node/modules/** on every run) -/
 
@@ -612,6 +976,123 @@ theorem shipped_modules_complete_once :
 
 /-- the translator found the modules (the obligation above is not vacuous) -/
 theorem shipped_modules_found : Cell2v.Gen.C11.shipped ≠ [] := by decide
+
+/-- … and it found *all* of them: the Start and the Stop of each of the three modules shipped under
+node/modules (a module the translator silently skipped — an alias, a promoted method — would make the
+obligation above say nothing about it). -/
+theorem shipped_modules_named :
+    ∀ nm ∈ ["actormodule.ActorSystemModule.Start", "actormodule.ActorSystemModule.Stop",
+            "clustermodule.ClusterModule.Start", "clustermodule.ClusterModule.Stop",
+            "welcomemodule.WelcomeModule.Start", "welcomemodule.WelcomeModule.Stop"],
+      ∃ m ∈ Cell2v.Gen.C11.shipped, m.name = nm := by decide
+
+/-! ### from the shipped bodies to the phase (the composition) -/
+
+/-- **a shipped module under the wrapper, panics included**: module `w` executes a shipped body along
+any path (`bs`: the values it reports, as many as the path has `next` calls) and any of its statements
+may panic at any point (`pa = some k`: after `k` reports; the translator's "opaque statements do not
+panic" is not needed for this) — `ModList`'s wrapper calls `next` for it exactly once. -/
+theorem shipped_module_one_next :
+    ∀ m ∈ Cell2v.Gen.C11.shipped, ∀ (σ : Nat → Bool) (w : Nat) (bs : List Bool) (pa : Option Nat),
+      bs.length = (m.body.exec σ).count →
+      ∃ b, wcalls (bodyActs w bs pa) = [(w, b)] := by
+  intro m hm σ w bs pa hlen
+  rw [(shipped_modules_complete_once m hm).2 σ] at hlen
+  match bs, hlen with
+  | [b], _ =>
+    match pa with
+    | none => exact ⟨b, by simp [bodyActs, wcalls, wcallsFrom, Wrap.step]⟩
+    | some 0 => exact ⟨false, by simp [bodyActs, wcalls, wcallsFrom, Wrap.step]⟩
+    | some (k + 1) => exact ⟨b, by simp [bodyActs, wcalls, wcallsFrom, Wrap.step]⟩
+
+private theorem filter_len_two {acts p q : List MAct} {a x : MAct} (P : MAct → Bool)
+    (heq : acts = p ++ a :: q) (hx : x ∈ p) (hpx : P x = true) (hpa : P a = true) : 2 ≤ (acts.filter P).length := by
+  subst heq
+  have h1 : 1 ≤ (p.filter P).length := List.length_pos_of_mem (List.mem_filter.mpr ⟨hx, hpx⟩)
+  simp only [List.filter_append, List.length_append, List.filter_cons, hpa, ↓reduceIte, List.length_cons]
+  omega
+
+private theorem body_counts (w : Nat) (b : Bool) (pa : Option Nat) :
+    ((bodyActs w [b] pa).filter (MAct.isReportOf w)).length ≤ 1 ∧ ((bodyActs w [b] pa).filter (MAct.isPanicOf w)).length ≤ 1 := by
+  match pa with
+  | none => simp [bodyActs, MAct.isReportOf, MAct.isPanicOf]
+  | some 0 => simp [bodyActs, MAct.isReportOf, MAct.isPanicOf]
+  | some (k + 1) => simp [bodyActs, MAct.isReportOf, MAct.isPanicOf]
+
+/-- **from "each module's body completes once" to "the phase completes once"**: if every action is
+made by an entered module, the actions of each module are those of a body that reports exactly once
+on its path — possibly cut short by a panic — and every entered module's Start/Stop does act
+(terminates), then the modules keep the discipline, the phase is complete, and `finish` is invoked
+exactly once, last, with the overall outcome.  With `shipped_modules_complete_once` (every shipped
+body reports exactly once on every path) this is the property for any list built from the shipped
+modules, and from any other module whose bodies pass the same check. -/
+theorem once_modules_phase_completes (n : Nat) (fwd : Bool) (acts : List MAct)
+    (hent : ∀ p a q, acts = p ++ a :: q → Ev.enter a.who ∈ wrun n fwd p)
+    (hbody : ∀ w, acts.filter (fun a => a.who == w) = [] ∨ ∃ b pa, acts.filter (fun a => a.who == w) = bodyActs w [b] pa)
+    (hterm : ∀ m, Ev.enter m ∈ wrun n fwd acts → acts.filter (fun a => a.who == m) ≠ []) :
+    MDisciplined n fwd acts ∧ MComplete n fwd acts ∧
+    ∃ b, finishes (wrun n fwd acts) = [b] ∧ (wrun n fwd acts).getLast? = some (Ev.finish b) := by
+  have hcounts : ∀ w, (acts.filter (MAct.isReportOf w)).length ≤ 1 ∧ (acts.filter (MAct.isPanicOf w)).length ≤ 1 := by
+    intro w
+    have e1 : acts.filter (MAct.isReportOf w) = (acts.filter (fun a => a.who == w)).filter (MAct.isReportOf w) := by
+      rw [List.filter_filter]; congr 1; funext a; cases a <;> simp [MAct.isReportOf, MAct.who]
+    have e2 : acts.filter (MAct.isPanicOf w) = (acts.filter (fun a => a.who == w)).filter (MAct.isPanicOf w) := by
+      rw [List.filter_filter]; congr 1; funext a; cases a <;> simp [MAct.isPanicOf, MAct.who]
+    rw [e1, e2]
+    rcases hbody w with h | ⟨b, pa, h⟩
+    · rw [h]; simp
+    · rw [h]; exact body_counts w b pa
+  have hd : MDisciplined n fwd acts := by
+    intro p a q heq
+    refine ⟨hent p a q heq, ?_, ?_⟩
+    · intro w b ha b' hmem
+      have := filter_len_two (MAct.isReportOf w) heq hmem (by simp [MAct.isReportOf]) (by simp [ha, MAct.isReportOf])
+      have := (hcounts w).1
+      omega
+    · intro w ha hmem
+      have := filter_len_two (MAct.isPanicOf w) heq hmem (by simp [MAct.isPanicOf]) (by simp [ha, MAct.isPanicOf])
+      have := (hcounts w).2
+      omega
+  have hc : MComplete n fwd acts := by
+    intro m hm
+    have hne := hterm m hm
+    obtain ⟨a, ha⟩ := List.exists_mem_of_ne_nil _ hne
+    obtain ⟨hin, hw⟩ := List.mem_filter.mp ha
+    cases a with
+    | report w b =>
+      simp only [MAct.who, beq_iff_eq] at hw
+      exact .inl ⟨b, hw ▸ hin⟩
+    | panic w =>
+      simp only [MAct.who, beq_iff_eq] at hw
+      exact .inr (hw ▸ hin)
+  obtain ⟨b, h1, h2, _⟩ := modlist_phase_completes n fwd acts hd hc
+  exact ⟨hd, hc, b, h1, h2⟩
+
+/-- non-vacuity: the hypotheses are satisfiable — three modules with once-bodies, module 0 reports
+success, module 1's Start panics before reporting (module 2 is never entered) -/
+example :
+    (∀ p a q, [MAct.report 0 true, .panic 1] = p ++ a :: q → Ev.enter a.who ∈ wrun 3 true p) ∧
+    (∀ w, [MAct.report 0 true, .panic 1].filter (fun a => a.who == w) = [] ∨
+      ∃ b pa, [MAct.report 0 true, .panic 1].filter (fun a => a.who == w) = bodyActs w [b] pa) ∧
+    (∀ m, Ev.enter m ∈ wrun 3 true [.report 0 true, .panic 1] →
+      [MAct.report 0 true, .panic 1].filter (fun a => a.who == m) ≠ []) := by
+  refine ⟨?_, ?_, ?_⟩
+  · intro p a q heq
+    match p with
+    | [] => simp at heq; obtain ⟨rfl, _⟩ := heq; decide
+    | [x] => simp at heq; obtain ⟨rfl, rfl, _⟩ := heq; decide
+    | _ :: _ :: _ :: _ => simp at heq
+    | [_, _] => simp at heq
+  · intro w
+    match w with
+    | 0 => exact .inr ⟨true, none, by decide⟩
+    | 1 => exact .inr ⟨true, some 0, by decide⟩
+    | k + 2 => exact .inl (by simp [MAct.who])
+  · intro m hm
+    have h : wrun 3 true [.report 0 true, .panic 1] = [.enter 0, .call 0 true, .enter 1, .call 1 false, .finish false] := by decide
+    rw [h] at hm
+    simp at hm
+    rcases hm with rfl | rfl <;> decide
 
 /-- D2, as translated before the `fix:` commit (`return` missing after `next(false)` in
 `ClusterModule.Start`): the branch "StartMember failed" calls `next` twice. -/
